@@ -657,3 +657,65 @@ Theorem C08_tr_reg_done : forall m pb lb R d fuel, TrReg.regs_at m pb lb R -> (2
   (forall b, (forall c o, (c < 256)%nat -> TrReg.cellp pb c <> CLite.VPtr b o) -> nth_error (TrReg.free_cells pb m) b = nth_error m b).
 Proof. exact TrReg.tr_reg_done. Qed.
 Print Assumptions C08_tr_reg_done.
+
+From NV Require TrViOpPure.
+
+(* ====================================================================================================================== *)
+(* The operators of vi.c on the C TEXT (translation round; tools/c2clite.d/99zzzzz_viops.list, coq/TrViOpPure.v, coq/TrViOp.v).
+   Helpers that touch no buffer: swap, linecount (NULL: 0, else newlines + 1), charcount (the characters of text between its last
+   newline in front of post and post: TrViOpPure.charcount_b), join_spaces (TrViOpPure.join_spaces_b: none after an empty text,
+   after a blank or before ')', two after '.', else one). *)
+Theorem C08_tr_swap : forall m ba bb x y d fuel, CLiteProps.cell_at m ba x -> CLiteProps.cell_at m bb y -> ba <> bb ->
+  CLiteTac.int_ok x -> CLiteTac.int_ok y ->
+  CLite.callf GenCFuncs.cprog fuel (S d) GenCFuncs.F_vi_swap [CLite.VPtr ba 0; CLite.VPtr bb 0] m
+  = CLite.Ok (CLite.VUndef, CLiteProps.upd (CLiteProps.upd m ba [CLite.VInt y]) bb [CLite.VInt x]).
+Proof. exact TrViOpPure.tr_swap. Qed.
+Print Assumptions C08_tr_swap.
+Theorem C08_tr_linecount : forall m b s d fuel, CLiteProps.str_at m b s -> Bytes.nonul s -> (Z.of_nat (length s) < 2147483647)%Z ->
+  (TrViOpPure.nlcount s + 1 < fuel)%nat ->
+  CLite.callf GenCFuncs.cprog fuel (S d) GenCFuncs.F_vi_linecount [CLite.VPtr b 0] m
+  = CLite.Ok (CLite.VInt (TrViOpPure.vlinecount (Some s)), m).
+Proof. exact TrViOpPure.tr_linecount. Qed.
+Print Assumptions C08_tr_linecount.
+Theorem C08_tr_linecount_null : forall m d fuel, (0 < fuel)%nat ->
+  CLite.callf GenCFuncs.cprog fuel (S d) GenCFuncs.F_vi_linecount [CLite.VInt 0] m = CLite.Ok (CLite.VInt (TrViOpPure.vlinecount None), m).
+Proof. exact TrViOpPure.tr_linecount_null. Qed.
+Print Assumptions C08_tr_linecount_null.
+Theorem C08_tr_charcount : forall m bt bp text post d fuel, CLiteProps.str_at m bt text -> CLiteProps.str_at m bp post ->
+  Bytes.nonul text -> Bytes.nonul post -> (Z.of_nat (length text) <= 2147483647)%Z -> (Z.of_nat (length post) <= 2147483647)%Z ->
+  (length text < fuel)%nat -> (length post < fuel)%nat ->
+  CLite.callf GenCFuncs.cprog fuel (S (S (S d))) GenCFuncs.F_charcount [CLite.VPtr bt 0; CLite.VPtr bp 0] m
+  = CLite.Ok (CLite.VInt (TrViOpPure.charcount_b text post), m).
+Proof. exact TrViOpPure.tr_charcount. Qed.
+Print Assumptions C08_tr_charcount.
+Theorem C08_tr_join_spaces : forall m bp bn prev next o d fuel, CLiteProps.str_at m bp prev -> CLiteProps.str_at m bn next ->
+  Bytes.nonul prev -> Bytes.nonul next -> (Z.of_nat (length prev) <= 2147483647)%Z -> (o <= length next)%nat ->
+  CLite.callf GenCFuncs.cprog fuel (S d) GenCFuncs.F_join_spaces [CLite.VPtr bp 0; CLite.VPtr bn (Z.of_nat o)] m
+  = CLite.Ok (CLite.VInt (TrViOpPure.join_spaces_b prev (skipn o next)), m).
+Proof. exact TrViOpPure.tr_join_spaces. Qed.
+Print Assumptions C08_tr_join_spaces.
+(* the byte-level rule of join_spaces is the rule of the interpreter (ViDefs.join_spaces on characters) *)
+Theorem C08_tr_join_spaces_model : forall prev next : list MotDefs.chr, Forall (fun c => c <> []) prev -> Forall (fun c => c <> []) next ->
+  Bytes.nonul (ViDefs.flat prev) ->
+  TrViOpPure.join_spaces_b (ViDefs.flat prev) (ViDefs.flat next) = Z.of_nat (ViDefs.join_spaces prev next).
+Proof. exact TrViOpPure.join_spaces_model. Qed.
+Print Assumptions C08_tr_join_spaces_model.
+(* the translated helpers RUN: "a\nbc\n" has 3 = 2 + 1 lines; charcount("x\nyzP", "P") = 2; join_spaces("end.", "next") = 2,
+   ("a ", "b") = 0, ("a", ")") = 0, ("a", "b") = 1, ("", "b") = 0; swap exchanges two cells *)
+Example C08_tr_pure_run :
+  let g := length GenCFuncs.cglobals in
+  let str l := CLite.cstr_block l in
+  let m0 := (GenCFuncs.cglobals ++ [str [97; 10; 98; 99; 10]; str [120; 10; 121; 122; 80]; str [80]; str [101; 110; 100; 46]; str [110; 101; 120; 116];
+                                    str [97; 32]; str [41]; str []; [CLite.VInt 3]; [CLite.VInt 7]])%list%Z in
+  let val r := match r with CLite.Ok (v, _) => Some v | CLite.Err _ => None end in
+  val (CLite.callf GenCFuncs.cprog 20 4 GenCFuncs.F_vi_linecount [CLite.VPtr g 0%Z] m0) = Some (CLite.VInt 3) /\
+  val (CLite.callf GenCFuncs.cprog 20 4 GenCFuncs.F_charcount [CLite.VPtr (g + 1) 0%Z; CLite.VPtr (g + 2) 0%Z] m0) = Some (CLite.VInt 2) /\
+  val (CLite.callf GenCFuncs.cprog 20 4 GenCFuncs.F_join_spaces [CLite.VPtr (g + 3) 0%Z; CLite.VPtr (g + 4) 0%Z] m0) = Some (CLite.VInt 2) /\
+  val (CLite.callf GenCFuncs.cprog 20 4 GenCFuncs.F_join_spaces [CLite.VPtr (g + 5) 0%Z; CLite.VPtr (g + 4) 0%Z] m0) = Some (CLite.VInt 0) /\
+  val (CLite.callf GenCFuncs.cprog 20 4 GenCFuncs.F_join_spaces [CLite.VPtr (g + 2) 0%Z; CLite.VPtr (g + 6) 0%Z] m0) = Some (CLite.VInt 0) /\
+  val (CLite.callf GenCFuncs.cprog 20 4 GenCFuncs.F_join_spaces [CLite.VPtr (g + 2) 0%Z; CLite.VPtr (g + 4) 0%Z] m0) = Some (CLite.VInt 1) /\
+  val (CLite.callf GenCFuncs.cprog 20 4 GenCFuncs.F_join_spaces [CLite.VPtr (g + 7) 0%Z; CLite.VPtr (g + 4) 0%Z] m0) = Some (CLite.VInt 0) /\
+  match CLite.callf GenCFuncs.cprog 20 4 GenCFuncs.F_vi_swap [CLite.VPtr (g + 8) 0%Z; CLite.VPtr (g + 9) 0%Z] m0 with
+  | CLite.Ok (_, m1) => (nth_error m1 (g + 8), nth_error m1 (g + 9)) = (Some [CLite.VInt 7], Some [CLite.VInt 3])
+  | CLite.Err _ => False end.
+Proof. vm_compute. repeat split; reflexivity. Qed.
